@@ -108,7 +108,7 @@ CHECKS = {
                      "job graph (sample/count/distribute/big-step recursion, sequential sample sort, mkqs, work sharing, LCP pass) runs on small inputs: every sequence of "
                      "<=4/<=5 strings over 7 short strings plus all-equal/long-prefix/duplicate/prefix-chain/high-byte families up to n=40, x workers 1..3 x with/without LCP x "
                      "C strings/std::string x sampler seeds: sorted permutation of the same string objects, exact LCPs, termination (deadlock = no runnable thread), ASan "
-                     "(work item touched after release), TSan. 9 drivers x LCP on/off are explored over every interleaving within the delay bound in ASan and TSan builds.",
+                     "(work item touched after release), TSan. 9 drivers (thorough: 13, incl. std::string sets and other parameter sets) x LCP on/off are explored over every interleaving within the delay bound in ASan and TSan builds.",
                 note="SC interleavings; delay bound 1 (quick) / 2 (thorough); tiny thresholds stand in for the default ones (same code, different constants); default classifier only; "
                      "scheduling points at synchronisation operations only, plain accesses are covered by TSan on the explored executions"),
     "C03": dict(engine="venum", technique=E3, design="4/C03",
